@@ -24,6 +24,10 @@ CLAIMS = {
 NA = {
 }
 
+CLAIMS["C06"] = ("Bounded model checking of the real Int kernels (value.AddVal/SubtractVal/MultiplyVal/DivideVal/ModuloVal/ExponentiateVal/NegateVal/IncrementVal/DecrementVal/CompareVal/GreaterThan..LessThanEqualVal/EqualVal/LaxEqualVal and everything they reach in small_int.go/big_int.go, BitwiseAnd/Or/Xor/AndNot/NotVal, LeftBitshiftVal/RightBitshiftVal with every AnyInt kind as the count, BigInt.IsEven/IsOdd). Operands: SmallInt (all 2^64 values) or canonical BigInt, all four representation pairs. Integer back end for + - * / % neg inc dec cmp ** : operands of unbounded magnitude as mathematical integers, math/big modelled exactly, machine arithmetic with explicit wrap/division witnesses; exponents 0..3. Bit-vector back end for bitwise and shifts: big integers are 192-bit two's complement with |v| < 2^126, shift counts exact for |count| <= 100 and crash-free for every count whose result fits 192 bits. Assertions: result is the exact mathematical integer, canonical representation (SmallInt iff it fits int64), a == (a/b)*b + a%b, ZeroDivisionError exactly for zero divisors, comparisons agree with the integer order, operands are never modified.",
+  "Outside: exponents > 3, shift counts whose result exceeds 192 bits (memory-exhaustion territory), String#to_int and literal parsing, Int x Float / BigFloat mixed results (C07/C18), the VM's typed opcodes and constant folder (C08), hash/inspect of the result (equal representation is shown instead: one canonical representation per integer). math/big is a model (checked by native replay of every counterexample), not its source. " + TRUST,
+  "DESIGN.md section 6 C06")
+
 checks = []
 for p in props:
     pid = p["id"]
